@@ -14,7 +14,7 @@ def unescape(s):
 
 def case_of(st):
     c = st['c']
-    return {'api': 'datetime', 'text': unescape(c['text']), 'culture': c['culture'], 'ref': c['ref'], 'c': c}
+    return {'api': 'datetime', 'text': unescape(c['text']), 'culture': c['culture'], 'ref': c['ref'], 'opt': c.get('opt', 0), 'c': c}
 
 
 def one(e):
